@@ -182,6 +182,13 @@ def case_detect(case):
             problems.append({"what": "reported condition does not make any propagator entry undefined", "condition": {str(k): str(v) for k, v in c.items()}})
         if not a_def:
             problems.append({"what": "reported condition makes the system matrix undefined", "condition": {str(k): str(v) for k, v in c.items()}})
+    if single_call:
+        # the detector is a function of (P, A): asking again, in the same process, must give the same conditions (the
+        # completeness clause holds for every call, not only for the first one on a given denominator)
+        canon = lambda cs: sorted(json.dumps(sorted((str(k), str(v)) for k, v in c.items())) for c in cs)      # noqa: E731
+        if canon(calls[0]["conditions"]) != canon(real):
+            problems.append({"what": "a second, identical find_singularities(P, A) call in the same process reports different conditions",
+                             "first": canon(calls[0]["conditions"]), "second": canon(real)})
     reported_pairs = sorted(sorted([str(k), str(v)]) for c in reported_all for k, v in c.items())
     return {"payload": {"entries": entries, "solve": table, "undefined_A": undefined}, "real_ids": real_ids, "reported": [json.loads(conds[i]) for i in real_ids],
             "reported_pairs": reported_pairs, "problems": problems, "n_solve_calls": len(solves), "structure": structure}
